@@ -460,8 +460,50 @@ def gen_cases(rng, tier):
         if rng.random() < 0.25:
             k2, m = mutate(rng, m); k = 'double'
         add(case(rng.choice(['load', 'load', 'load', 'incload']), XB(m)), 'load-' + k)
+    # directed adversarial inputs: the recorded defects and their neighbours, every run
+    W = lambda a, b, c: ('W', A([I(a), I(b), I(c)]))
+    for ents, content in [
+        ([('Size', I(3)), W(0, 0, 0), ('Index', A([I(0), I(4000000000)]))], b'abc'),
+        ([('Size', I(3)), W(0, 0, 0)], b'abc'),
+        ([('Size', I(I64MAX)), W(0, 0, 0)], b''),
+        ([('Size', I(3)), W(I64MAX, 1, 1)], b'abc'),
+        ([('Size', I(3)), W(1, I64MAX, 1)], b'abc'),
+        ([('Size', I(3)), W(1, 1, I64MAX)], b'\x01\x00'),
+        ([('Size', I(3)), W(2**40, 2**40, 2**40)], b'abc'),
+        ([('Size', I(3)), W(1, 1, 1), ('Index', A([I(I64MAX - 1), I(3)]))], b'\x01\x00\x00' * 3),
+        ([('Size', I(3)), W(1, 1, 1), ('Index', A([I(I64MAX), I(I64MAX)]))], b'\x01\x00\x00' * 3),
+        ([('Size', I(3)), W(0, 0, 1), ('Index', A([I(0), I(I64MAX)]))], b'abcdef'),
+        ([('Size', I(3)), W(0, 1, 0), ('Index', A([I(-5), I(I64MAX)]))], b'abcdef'),
+        ([('Size', I(2)), W(1, 0, 0), ('Index', A([I(0), I(I64MAX)]))], b'\x01\x01\x07\x00'),
+    ]:
+        add(case('xrefstm', D(ents), XB(content)), 'xrefstm-directed')
+    head = (b'/CIDInit /ProcSet findresource begin 12 dict begin begincmap /CMapType 2 def '
+            b'1 begincodespacerange <00> <ff> endcodespacerange ')
+    tail = b' endcmap CMapName currentdict /CMap defineresource pop end end'
+    for body, text in [
+        (b'1 beginbfrange <00> <ff> <0041ffff> endbfrange', b'\x00\x01\xff'),          # += on the last unit overflows u16
+        (b'1 beginbfrange <00> <ff> <ffff> endbfrange', b'\x00\x01\xff'),
+        (b'1 beginbfrange <00> <ff> [<0041> <0042>] endbfrange', b'\x00\x01\x02\xff'),  # array shorter than the range
+        (b'1 beginbfrange <00> <ff> [<0041>] endbfrange', b'\x00\x05'),
+        (b'2 beginbfrange <10> <1f> <d83dde00> <00> <0f> <00410042> endbfrange 1 beginbfchar <15> <0041> endbfchar', b'\x16\x15\x1f\x0f'),
+        (b'1 beginbfrange <ff> <00> <0041> endbfrange', b'\x00'),
+        (b'1 beginbfrange <00> <ff> [] endbfrange', b'\x00'),
+        (b'1 beginbfchar <ffffffff> <ffff> endbfchar', b'\xff\xff\xff\xff\xff'),
+        (b'1 beginbfrange <00000000> <ffffffff> <0000ffff> endbfrange', b'\xff\xff\xff\xff\x00\x00\x00\x01'),
+    ]:
+        add(case('cmap', XB(head + body + tail), XB(text)), 'cmap-directed')
+    for b in [b's8W-"~>', b's8W-!~>', b'uuuuu~>', b'u~>', b'uu', b'~>', b'~', b'']:
+        add(case('a85', XB(b)), 'a85-directed', len(b) > 0)
+    for p, cols, colors, bits, data in [(12, I64MAX, I64MAX, 8, b'\x00abc'), (12, 4000000000, 1, 8, b'\x00abc'), (12, 1, 1, I64MAX, b'\x00abc'),
+                                        (15, 2**61, 4, 16, b'\x02abc'), (12, 3, 1, 8, b'\x00abc\x02abc'), (12, 2**40, 1, 8, b'')]:
+        add(case('pred', str(p), str(cols), str(colors), str(bits), XB(data)), 'pred-directed')
+    for b in [b'BI /W 9223372036854775807 /H 1 /BPC 8 /CS /RGB ID abc EI', b'BI /W -1 /H 1 /BPC 8 /CS /G ID x EI',
+              b'BI /W 2 /H 1 /BPC 8 /CS /RGB ID abcdef EI Q', b'BI /W 1 /H -1 /BPC 1 /CS /G ID x EI',
+              b'[' * 100 + b']' * 100 + b' TJ', b'[' * 101 + b']' * 101 + b' TJ', b'[' * 2000 + b']' * 2000 + b' TJ', b'<</A' * 3000,
+              b'(' * 101 + b')' * 101 + b' Tj', b'(' * 5000]:
+        add(case('content', XB(b)), 'content-directed')
     # adversarial whole files
-    n = 300 if q else 20000
+    n = 3000 if q else 20000
     chain = [(i, b'<</Length %d 0 R>>stream\nx\nendstream' % (i + 1)) for i in range(1, n + 1)] + [(n + 1, b'1')]
     add(case('load', XB(pdf_classic(chain))), 'load-length-chain')
     add(case('load', XB(pdf_classic([(1, b'<</Type/Catalog/X ' + b'[' * 50000 + b'>>')]))), 'load-deep-array')
@@ -503,7 +545,7 @@ SPEC = {
             'numeric extreme; content streams with operands nested 1..20000 deep, inline images with W/H/BPC extremes; object streams '
             'with N/First/index extremes and deep members; cross-reference streams with W/Index/Size extremes; text strings with marks, '
             'odd lengths, lone surrogates; ToUnicode CMaps damaged and with hex-string width extremes; filter chains with damaged data '
-            'and DecodeParms extremes) plus structure-aware mutations (bit, byte, truncation, numeric extremes in every number, token '
+            'and DecodeParms extremes), the recorded defects and their neighbours as directed cases on every run, plus structure-aware mutations (bit, byte, truncation, numeric extremes in every number, token '
             'delete/duplicate/swap, splice, inserted nesting, Prev and Length cycles, duplicated chunks, leading junk) of the '
             'repository assets and of documents built here (classic table, indirect Length, xref stream + object stream with and '
             'without predictor, incremental update), all run in an isolated worker with time, stack and memory limits; '
